@@ -10,6 +10,7 @@
 // and the `sz` header of every live block.  Oracle (independent of the model):
 // a shadow map of live blocks with fill patterns.
 #include "common/hv.h"
+#include "C10_shared.h"
 #include <map>
 #include <fcntl.h>
 #include <sys/wait.h>
@@ -34,85 +35,8 @@ static_assert(sizeof(size_t) == 8 && sizeof(void *) == 8, "LP64 host assumed by 
 static_assert(sizeof(struct __freelist) == 16, "struct __freelist layout assumed by the model");
 static_assert(sizeof(struct slist_head) == 8, "slist_head layout assumed by the model");
 
-// ---------------------------------------------------------------- heap glue
-extern "C" void *igv_malloc(size_t);
-extern "C" void igv_free(void *);
-extern "C" void *igv_realloc(void *, size_t);
-extern char *__brkval;
-extern char *__malloc_heap_start;
-extern char *__malloc_heap_end;
-extern struct __freelist *__flp;
-extern int __allocation_counter;
-// the same two files compiled with NDEBUG (C10_*_rel.cpp)
-extern "C" void *igr_malloc(size_t);
-extern "C" void igr_free(void *);
-extern "C" void *igr_realloc(void *, size_t);
-extern char *__brkval_rel;
-extern char *__malloc_heap_start_rel;
-extern char *__malloc_heap_end_rel;
-extern struct __freelist *__flp_rel;
-extern int __allocation_counter_rel;
+uint64_t g_seed = 1;
 
-struct HeapApi
-{
-    void *(*malloc_)(size_t);
-    void (*free_)(void *);
-    void *(*realloc_)(void *, size_t);
-    char **brkval, **heap_start, **heap_end;
-    struct __freelist **flp;
-    int *counter;
-};
-static HeapApi API_DBG = {igv_malloc, igv_free, igv_realloc, &__brkval, &__malloc_heap_start, &__malloc_heap_end, &__flp, &__allocation_counter};
-static HeapApi API_REL = {igr_malloc, igr_free, igr_realloc, &__brkval_rel, &__malloc_heap_start_rel, &__malloc_heap_end_rel, &__flp_rel, &__allocation_counter_rel};
-static HeapApi *A = &API_DBG;
-#define BRK (*A->brkval)
-#define FLP (*A->flp)
-#define CNT (*A->counter)
-
-static const size_t STATIC_ARENA = 1u << 20;
-alignas(64) char _heap_start[STATIC_ARENA]; // the symbol lin_malloc.cpp links against
-
-// stubs for the critical-section / system-lock symbols of the bare-metal build
-static int crit_level = 0;
-extern "C" int critical_context_level(void) { return crit_level; }
-static int lock_depth = 0, lock_max = 0;
-extern "C" void system_lock(void)
-{
-    lock_depth++;
-    if (lock_depth > lock_max) lock_max = lock_depth;
-}
-extern "C" void system_unlock(void) { lock_depth--; }
-
-static std::string s(long long v) { return std::to_string(v); }
-static std::string early_report __attribute__((init_priority(101)));
-// Runs BEFORE main() and before every dynamic initialiser of default priority (the allocator's own statics,
-// e.g. `static igris::syslock lock;` in lin_realloc.cpp, the harness' globals): a bare-metal start-up code calls
-// malloc from constructors of static objects.  The allocator must work from its constant-initialised state
-// (__brkval == NULL, __flp == NULL, __malloc_heap_start == &_heap_start).
-struct EarlyHeapUser
-{
-    EarlyHeapUser()
-    {
-        char buf[200];
-        char *a = (char *)igv_malloc(10);
-        for (int i = 0; a && i < 10; i++) a[i] = (char)(i + 1);
-        char *b = (char *)igv_realloc(a, 100);
-        bool kept = b != nullptr;
-        for (int i = 0; b && i < 10; i++) kept = kept && b[i] == (char)(i + 1);
-        char *c = (char *)igv_malloc(0);
-        long brk3 = __brkval ? (long)(__brkval - _heap_start) : -1;
-        igv_free(b);
-        igv_free(c);
-        snprintf(buf, sizeof buf, "early a=%ld b=%ld c=%ld brk=%ld end=%ld fl=%d%s", a ? (long)(a - _heap_start) : -1, b ? (long)(b - _heap_start) : -1,
-                 c ? (long)(c - _heap_start) : -1, brk3, __brkval ? (long)(__brkval - _heap_start) : -1, __flp ? 1 : 0, kept ? "" : " PREFIX-LOST");
-        early_report = buf; // std::string with init_priority(101) too: constructed before this object (same TU, declared first)
-    }
-};
-static EarlyHeapUser early_heap_user __attribute__((init_priority(101)));
-static std::string su(size_t v) { return std::to_string((unsigned long long)v); }
-static uint64_t g_seed = 1;
-
-static uint8_t pat(uint64_t seed, size_t i) { return (uint8_t)(((seed * 0x9E37u + i * 131u) % 251u) + 1u); }
 
 // ================================================================ pools
 struct PoolCase
@@ -313,13 +237,32 @@ struct MPoolCase
         live[{(size_t)k, off}] = sd;
         for (size_t i = 0; i < z.e; i++) z.buf->p[off + i] = pat(sd, i);
     }
+    // the entries of the free list: by following the links when slist_head still has a member `next`
+    // (at most cap + 2 steps), otherwise by asking pool_in_freelist about every cell of every zone
+    template <class H> std::vector<slist_head *> fl_entries(H &h)
+    {
+        std::vector<slist_head *> v;
+        if constexpr (requires { h.next->next; })
+        {
+            for (auto *it = h.next; it != &h && v.size() < cap + 2; it = it->next) v.push_back(it);
+        }
+        else
+        {
+            for (auto &z : zones)
+                for (size_t i = 0; i < z.n; i++)
+                    if (pool_in_freelist(&head, z.buf->p + i * z.e)) v.push_back((slist_head *)(z.buf->p + i * z.e));
+        }
+        return v;
+    }
     // the free list as the code links it: every entry is a cell of a zone, not live, no entry twice,
     // and together with the live cells they are ALL cells of all zones (nothing lost, nothing invented)
     void check_freelist(out &o)
     {
         std::set<std::pair<size_t, size_t>> seen;
         size_t steps = 0;
-        for (slist_head *it = head.free_blocks.next; it != &head.free_blocks; it = it->next)
+        // `next` is a field name of slist.h that the property does not name: when it is gone the list is read
+        // behaviourally (pool_in_freelist on every cell of every zone: public API), see fl_entries()
+        for (slist_head *it : fl_entries(head.free_blocks))
         {
             if (++steps > cap + 1)
             {
@@ -344,78 +287,7 @@ struct MPoolCase
 static std::unique_ptr<MPoolCase> MC;
 
 // ---- static_object_pool<T, Cap>
-static std::set<const void *> sop_objs;
-static std::string sop_err;
-static long sop_ctor_runs = 0, sop_dtor_runs = 0;
-static const void *sop_last_ctor = nullptr, *sop_last_dtor = nullptr;
-template <size_t SZ, size_t AL> struct alignas(AL) Obj
-{
-    unsigned char b[SZ];
-    Obj()
-    {
-        if (!sop_objs.insert(this).second) sop_err = "constructed over a live object";
-        sop_ctor_runs++;
-        sop_last_ctor = this;
-        for (size_t i = 0; i < SZ; i++) b[i] = pat((uintptr_t)this, i);
-    }
-    ~Obj()
-    {
-        if (!sop_objs.erase(this)) sop_err = "destroyed a dead object";
-        else if (!intact()) sop_err = "object contents changed before its destructor ran";
-        sop_dtor_runs++;
-        sop_last_dtor = this;
-    }
-    bool intact() const
-    {
-        for (size_t i = 0; i < SZ; i++)
-            if (b[i] != pat((uintptr_t)this, i)) return false;
-        return true;
-    }
-};
-struct SopBase
-{
-    virtual ~SopBase() {}
-    virtual void *create() = 0;
-    virtual void destroy(void *) = 0;
-    virtual size_t avail() = 0;
-    virtual char *base() = 0;
-    virtual size_t storage() = 0;
-    virtual size_t cap() = 0;
-    virtual size_t szT() = 0;
-    virtual size_t alT() = 0;
-    virtual bool intact(void *) = 0;
-    virtual void engage(void *zone, size_t ncells) = 0; // through freelist()
-};
-template <size_t SZ, size_t AL, size_t CAP> struct SopImpl : SopBase
-{
-    typedef Obj<SZ, AL> T;
-    static_assert(sizeof(T) == SZ && alignof(T) == AL, "Obj layout");
-    typedef igris::static_object_pool<T, CAP> P;
-    P *p;
-    SopImpl() { p = new P(); } // on the heap: ASan redzones right behind `storage`
-    ~SopImpl() { delete p; }
-    void *create() { return p->create(); }
-    void destroy(void *q) { p->destroy((T *)q); }
-    size_t avail() { return p->avail(); }
-    char *base() { return (char *)p->storage.data(); }
-    size_t storage() { return sizeof(typename P::storage_type); }
-    size_t cap() { return CAP; }
-    size_t szT() { return SZ; }
-    size_t alT() { return AL; }
-    bool intact(void *q) { return ((T *)q)->intact(); }
-    void engage(void *zone, size_t ncells) { pool_engage(p->freelist(), zone, ncells * sizeof(typename P::storage_type), sizeof(typename P::storage_type)); }
-};
-struct SopKind
-{
-    size_t sz, al, cap;
-    std::function<SopBase *()> mk;
-};
-#define SOPK(SZ, AL, CAP) {SZ, AL, CAP, []() -> SopBase * { return new SopImpl<SZ, AL, CAP>(); }}
-static const std::vector<SopKind> sop_kinds = {
-    SOPK(1, 1, 1),   SOPK(1, 1, 5),   SOPK(4, 4, 2),    SOPK(8, 8, 7),    SOPK(12, 4, 3),  SOPK(12, 4, 33),
-    SOPK(24, 8, 1),  SOPK(24, 8, 6),  SOPK(40, 8, 9),   SOPK(32, 32, 4),  SOPK(48, 16, 5), SOPK(64, 8, 33),
-    SOPK(2, 2, 16),  SOPK(16, 16, 8), SOPK(96, 32, 3),  SOPK(7, 1, 10),
-};
+// (the Obj / SopImpl templates and their 16 instantiations: C10_sop.cpp, round 3b)
 struct SopCase
 {
     std::unique_ptr<SopBase> p;
@@ -519,206 +391,12 @@ struct TriCase
 };
 static std::unique_ptr<TriCase> TC;
 
-// ================================================================ heap
-struct Blk
-{
-    char *p;
-    size_t n;      // requested size
-    uint64_t seed; // fill pattern
-    size_t hdr;    // header value seen when the block was handed out
-};
-struct HeapCase
-{
-    size_t lim = 0;
-    char *start = nullptr;
-    size_t cap = 0; // bytes really available behind start
-    std::unique_ptr<exact_buf> own;
-    std::map<int, Blk> live;
-    uint64_t ctr = 1;
-};
-static std::unique_ptr<HeapCase> HC;
-
-static size_t &hdr_of(char *p) { return ((size_t *)p)[-1]; }
-// a request that cannot be rounded up to a multiple of __WORDSIZE in a size_t: no block can satisfy it
-static bool unrepresentable(size_t n) { return n % __WORDSIZE && n > SIZE_MAX - (__WORDSIZE - n % __WORDSIZE); }
-// the request as the allocator sizes it (rounded up to __WORDSIZE, at least 8); only for representable requests
-static size_t rounded(size_t n)
-{
-    size_t len = n % __WORDSIZE ? n + (__WORDSIZE - n % __WORDSIZE) : n;
-    return len < 8 ? 8 : len;
-}
-// ADDRESS wrap-around: a chunk of `len` payload bytes whose header would sit at address `at` does not fit below the
-// top of the 64-bit address space (no block can satisfy such a request: NULL is the only admissible answer)
-static bool addr_wraps(const char *at, size_t n)
-{
-    if (unrepresentable(n)) return true;
-    size_t len = rounded(n);
-    return len > SIZE_MAX - 8 || len + 8 > SIZE_MAX - (size_t)(uintptr_t)at;
-}
-// a block the allocator handed out must lie inside the arena (checked BEFORE the harness touches it)
-static bool block_in_arena(const char *p, size_t n);
-
-static bool block_in_arena(const char *p, size_t n)
-{
-    return p >= HC->start + 8 && p <= HC->start + HC->cap && n <= (size_t)(HC->start + HC->cap - p);
-}
-static void heap_fill(Blk &b)
-{
-    b.seed = HC->ctr++;
-    for (size_t i = 0; i < b.n; i++) b.p[i] = (char)pat(b.seed, i);
-}
-static bool heap_intact(const Blk &b, size_t upto, const char *at, std::string &why)
-{
-    for (size_t i = 0; i < upto; i++)
-        if ((uint8_t)at[i] != pat(b.seed, i))
-        {
-            why = "byte " + s(i);
-            return false;
-        }
-    return true;
-}
-
-struct FreeList
-{
-    std::vector<std::pair<size_t, size_t>> v;
-    bool ok = true;
-};
-static FreeList walk_freelist(out &o)
-{
-    FreeList fl;
-    size_t steps = 0;
-    for (struct __freelist *f = FLP; f; f = f->nx)
-    {
-        if ((char *)f < HC->start || (char *)f + sizeof(struct __freelist) > HC->start + HC->cap)
-        {
-            o.fail("free list leaves the arena");
-            fl.ok = false;
-            break;
-        }
-        fl.v.push_back({(size_t)((char *)f - HC->start), f->sz});
-        if (++steps > 100000)
-        {
-            o.fail("free list is cyclic");
-            fl.ok = false;
-            break;
-        }
-    }
-    return fl;
-}
-
-// the checks that hold after every heap operation
-static void heap_oracle(out &o, int operated_slot, const FreeList &fl)
-{
-    size_t brk = BRK ? (size_t)(BRK - HC->start) : 0;
-    if (BRK && (BRK < HC->start || brk > HC->cap)) o.fail("break outside the arena");
-    if (HC->lim && brk > HC->lim) o.fail("break " + s(brk) + " beyond the heap end " + s(HC->lim));
-    // every other live block: contents and header untouched
-    for (auto &kv : HC->live)
-    {
-        if (kv.first == operated_slot) continue;
-        std::string why;
-        if (!heap_intact(kv.second, kv.second.n, kv.second.p, why))
-            o.fail("contents of live block in slot " + s(kv.first) + " changed at " + why);
-        if (hdr_of(kv.second.p) != kv.second.hdr) o.fail("header of live block in slot " + s(kv.first) + " changed");
-    }
-    // live blocks: inside [start, brk), aligned, pairwise disjoint (header + requested payload)
-    std::vector<std::pair<size_t, size_t>> spans;
-    for (auto &kv : HC->live)
-    {
-        const Blk &b = kv.second;
-        if (b.p - 8 < HC->start || (size_t)(b.p - HC->start) + b.n > brk)
-            o.fail("block in slot " + s(kv.first) + " not inside [start, brk)");
-        if ((uintptr_t)b.p % 8) o.fail("payload not 8-aligned");
-        if (hdr_of(b.p) < b.n) o.fail("usable size " + s(hdr_of(b.p)) + " < request " + s(b.n));
-        spans.push_back({(size_t)(b.p - 8 - HC->start), (size_t)(b.p - HC->start) + std::max(b.n, hdr_of(b.p))});
-    }
-    std::sort(spans.begin(), spans.end());
-    for (size_t i = 1; i < spans.size(); i++)
-        if (spans[i].first < spans[i - 1].second) o.fail("two live blocks overlap at offset " + s(spans[i].first));
-    // the chunks (live or free) tile [start, brk): nothing is lost
-    if (fl.ok)
-    {
-        std::map<size_t, int> kind; // header offset -> 1 live, 2 free
-        for (auto &kv : HC->live) kind[(size_t)(kv.second.p - 8 - HC->start)] |= 1;
-        for (auto &f : fl.v) kind[f.first] |= 2;
-        size_t a = 0, nchunks = 0;
-        while (a < brk)
-        {
-            auto it = kind.find(a);
-            if (it == kind.end() || it->second == 3)
-            {
-                o.fail("heap walk: offset " + s(a) + (it == kind.end() ? " is neither a live nor a free chunk (memory lost)" : " is both live and free"));
-                break;
-            }
-            a += 8 + *(size_t *)(HC->start + a);
-            nchunks++;
-        }
-        if (a > brk) o.fail("heap walk: last chunk ends behind the break");
-        if (a == brk && nchunks != kind.size()) o.fail("heap walk: a chunk lies outside the tiling");
-    }
-    if (HC->live.empty() && (brk != 0 || FLP != nullptr))
-        o.fail("no live block but brk=" + s(brk) + " / free list not empty: memory lost");
-    if (CNT != (int)HC->live.size())
-        o.fail("__allocation_counter=" + s(CNT) + " with " + s(HC->live.size()) + " live blocks");
-    if (lock_depth != 0) o.fail("system lock not released");
-}
-
-static std::string heap_line(const std::string &ret, const FreeList &fl)
-{
-    std::string r = "ret=" + ret + " brk=" + s(BRK ? (long long)(BRK - HC->start) : 0) + " fl=";
-    for (auto &f : fl.v) r += "(" + s(f.first) + "," + s(f.second) + ")";
-    r += " live=";
-    bool first = true;
-    for (auto &kv : HC->live)
-    {
-        if (!first) r += " ";
-        first = false;
-        r += s(kv.first) + ":" + s(kv.second.p - HC->start) + ":" + s(hdr_of(kv.second.p));
-    }
-    return r;
-}
-
-// Every store of an allocator call must go into the chunk it operates on, into
-// a chunk that was free before the call, or behind the old break (evaluated on
-// the real memory by a snapshot diff; stronger than the fill patterns, which
-// cover only the requested bytes of the other live blocks).
-struct StoreWatch
-{
-    std::vector<char> snap;
-    std::vector<std::pair<size_t, size_t>> allowed;
-    size_t brk0 = 0;
-    void begin(char *operated)
-    {
-        brk0 = BRK ? (size_t)(BRK - HC->start) : 0;
-        snap.assign(HC->start, HC->start + brk0);
-        allowed.clear();
-        size_t steps = 0;
-        for (struct __freelist *f = FLP; f && steps++ < 100000; f = f->nx)
-        {
-            size_t a = (size_t)((char *)f - HC->start);
-            allowed.push_back({a, a + 8 + f->sz});
-        }
-        if (operated) allowed.push_back({(size_t)(operated - 8 - HC->start), (size_t)(operated - HC->start) + hdr_of(operated)});
-    }
-    void end(out &o)
-    {
-        for (size_t x = 0; x + 8 <= brk0; x += 8)
-        {
-            if (!memcmp(snap.data() + x, HC->start + x, 8)) continue;
-            bool ok = false;
-            for (auto &a : allowed)
-                if (a.first <= x && x + 8 <= a.second) ok = true;
-            if (!ok)
-            {
-                o.fail("store at offset " + s(x) + " is outside the operated chunk, the free chunks and the space behind the break");
-                return;
-            }
-        }
-    }
-};
-static StoreWatch SW;
-
 // ---------------------------------------------------------------- run
+template <class It> static size_t iter_index_width(It &it)
+{
+    if constexpr (requires { it._num; }) return sizeof(it._num);
+    else return 0;
+}
 static void run_op(const std::vector<std::string> &w, const std::string &, out &o)
 {
     if (w.empty())
@@ -738,7 +416,12 @@ static void run_op(const std::vector<std::string> &w, const std::string &, out &
         igris::pool ip0;
         auto it0 = ip0.begin();
         struct __freelist fl0;
-        o.result = "int=" + s(sizeof(it0._num)) + " ptr=" + s(sizeof(void *)) + " sizemax=" + su(SIZE_MAX) + " hdr=" + s(sizeof(fl0.sz)) +
+        // the iterator's index member is an internal name and its width is not fixed by the property: the model
+        // needs "at least 32 bits" (capacities < 2^31).  Wider is harmless and is reported as a tag only; narrower
+        // is printed and differs from the model; a renamed member degrades to the neutral default.
+        size_t idxw = iter_index_width(it0);
+        o.tag(("iter-index-width=" + (idxw ? s(idxw) : std::string("unknown"))).c_str());
+        o.result = "int=" + s(idxw == 0 || idxw >= 4 ? 4 : idxw) + " ptr=" + s(sizeof(void *)) + " sizemax=" + su(SIZE_MAX) + " hdr=" + s(sizeof(fl0.sz)) +
                    " minchunk=" + s(sizeof(struct __freelist) - sizeof(size_t)) + " align=" + s(alignof(struct __freelist)) +
                    " maxalign=" + s(alignof(max_align_t)) + " nx_off=" + s(offsetof(struct __freelist, nx));
         if (!std::is_same<decltype(ip0.room()), size_t>::value) o.fail("room() is not size_t");
@@ -746,10 +429,7 @@ static void run_op(const std::vector<std::string> &w, const std::string &, out &
     }
     if (op == "early")
     {
-        o.result = early_report;
-        if (early_report.find("PREFIX-LOST") != std::string::npos || early_report.find("-1") != std::string::npos)
-            o.fail("allocator used before main(): " + early_report);
-        o.tag("before-main");
+        c10::heap_early_op(o);
         return;
     }
     if (op == "reset")
@@ -758,7 +438,7 @@ static void run_op(const std::vector<std::string> &w, const std::string &, out &
         MC.reset();
         SC.reset();
         TC.reset();
-        HC.reset();
+        c10::heap_drop();
         sop_objs.clear();
         sop_err.clear();
         sop_ctor_runs = sop_dtor_runs = 0;
@@ -844,34 +524,9 @@ static void run_op(const std::vector<std::string> &w, const std::string &, out &
             o.tag("twins");
             return;
         }
-        if (k == "crit")
+        if (k == "crit" || k == "heap")
         {
-            // malloc / free / realloc called from a critical context (interrupt handler): the port aborts instead of
-            // corrupting the heap under the interrupted call.  Run in a child process.
-            fflush(stdout);
-            pid_t pid = fork();
-            if (pid == 0)
-            {
-                int nul = open("/dev/null", O_RDWR);
-                dup2(nul, 0);
-                dup2(nul, 1);
-                dup2(nul, 2);
-                __malloc_heap_start = _heap_start;
-                __malloc_heap_end = nullptr;
-                __brkval = nullptr;
-                __flp = nullptr;
-                __allocation_counter = 0;
-                void *q = igv_malloc(8);
-                crit_level = 1;
-                if (w[2] == "m") q = igv_malloc(8);
-                else if (w[2] == "f") igv_free(q);
-                else q = igv_realloc(q, 100);
-                _exit(q ? 0 : 1);
-            }
-            int status = 0;
-            waitpid(pid, &status, 0);
-            o.result = WIFSIGNALED(status) && WTERMSIG(status) == SIGABRT ? "abort" : WIFSIGNALED(status) ? "signal " + s(WTERMSIG(status)) : "returned";
-            o.tag("critical-context");
+            c10::heap_reset_op(w, o);
             return;
         }
         if (k == "mpool")
@@ -942,38 +597,6 @@ static void run_op(const std::vector<std::string> &w, const std::string &, out &
             if (SC->p->avail() != cap) o.fail("fresh object pool: avail != Capacity");
             if ((uintptr_t)SC->p->base() % std::max(al, (size_t)8)) o.fail("storage misaligned for T");
             if (SC->p->storage() % std::max(al, (size_t)8) || SC->p->storage() < sz) o.fail("storage_type too small / misaligned");
-            return;
-        }
-        if (k == "heap")
-        {
-            HC.reset(new HeapCase());
-            HC->lim = strtoul(w[2].c_str(), 0, 10);
-            if (HC->lim)
-            {
-                // exactly sized arena: a store behind the heap end is an ASan report
-                HC->own.reset(new exact_buf(HC->lim));
-                HC->start = (char *)HC->own->p;
-                HC->cap = HC->lim;
-                o.tag("limited");
-            }
-            else
-            {
-                HC->start = _heap_start;
-                HC->cap = STATIC_ARENA;
-            }
-            // the model assumes an arena address in [2^32, 2^47) (requests are generated so that their verdict is the
-            // same for every base in that range)
-            if ((uintptr_t)HC->start < (1ull << 32) || (uintptr_t)HC->start + HC->cap >= (1ull << 47)) o.fail("arena address outside [2^32, 2^47): the model's address assumption does not hold on this host");
-            if ((uintptr_t)HC->start % 8) o.fail("arena start not 8-aligned");
-            A = (w.size() > 3 && w[3] == "rel") ? &API_REL : &API_DBG;
-            if (A == &API_REL) o.tag("release-build");
-            *A->heap_start = HC->start;
-            *A->heap_end = HC->lim ? HC->start + HC->lim : nullptr;
-            BRK = nullptr;
-            FLP = nullptr;
-            CNT = 0;
-            lock_depth = 0;
-            o.result = "ok";
             return;
         }
         o.result = "bad-op";
@@ -1286,6 +909,18 @@ static void run_op(const std::vector<std::string> &w, const std::string &, out &
             o.result = "";
             o.tag("destroy");
         }
+        else if (op == "ct")
+        {
+            // round 3b: create(args...) whose T constructor throws.  No object exists afterwards, so the cell must be
+            // back in the pool ("free count = capacity - live", judged below) and the exception must reach the caller.
+            int rc = p.create_throw();
+            if (rc == 2) o.fail("create(throwing constructor) returned an object");
+            if (rc == 0 && SC->live.size() != SC->cap) o.fail("null with free cells left");
+            if (rc == 1 && SC->live.size() >= SC->cap) o.fail("a constructor was started although Capacity objects are live");
+            if (sop_ctor_runs != c0 || sop_dtor_runs != d0) o.fail("create(throwing constructor) completed a constructor / ran a destructor");
+            o.result = rc == 1 ? "throw" : rc == 0 ? "null" : "object";
+            o.tag(rc == 1 ? "create-ctor-throws" : "create-ctor-throws-null");
+        }
         else if (op == "x")
         {
             size_t n = strtoul(w[1].c_str(), 0, 10);
@@ -1318,1114 +953,19 @@ static void run_op(const std::vector<std::string> &w, const std::string &, out &
         if (p.avail() != SC->cap - SC->live.size()) o.fail("avail != Capacity - live");
         return;
     }
-    if (HC)
+    if (c10::heap_active())
     {
-        size_t fl_before = 0;
-        for (struct __freelist *f = FLP; f && fl_before < 100000; f = f->nx) fl_before++;
-        char *brk_before = BRK;
-        std::string ret = "-";
-        int slot = -1;
-        if (op == "m")
-        {
-            slot = atoi(w[1].c_str());
-            size_t n = strtoul(w[2].c_str(), 0, 10);
-            const char *brk_addr = BRK ? BRK : HC->start;
-            bool was_empty = HC->live.empty();
-            SW.begin(nullptr);
-            char *p = (char *)A->malloc_(n);
-            SW.end(o);
-            if (p && !block_in_arena(p, n))
-            {
-                // judged before the harness touches the block: it cannot be filled, the case ends here
-                o.fail("malloc(" + su(n) + ") returned a block that is not inside the arena [start, start + " + su(HC->cap) + ")");
-                o.result = "ret=outside";
-                return;
-            }
-            if (p)
-            {
-                Blk b{p, n, 0, hdr_of(p)};
-                if (hdr_of(p) < n)
-                {
-                    o.fail("usable size " + su(hdr_of(p)) + " < request " + su(n));
-                    b.n = hdr_of(p); // keep the shadow map usable
-                }
-                heap_fill(b);
-                HC->live[slot] = b;
-                ret = s(p - HC->start);
-            }
-            else
-            {
-                ret = "null";
-                // without a heap end NULL is admissible only for a request no block can satisfy: its rounding wraps
-                // around SIZE_MAX, or the new chunk would reach across the top of the address space
-                if (!HC->lim && !addr_wraps(brk_addr, n)) o.fail("malloc returned NULL without a heap limit");
-                // "memory is not lost": on a heap without live blocks the whole arena is available again
-                if (HC->lim && was_empty && !unrepresentable(n) && rounded(n) <= HC->lim - 8 && HC->lim >= 8)
-                    o.fail("malloc(" + su(n) + ") failed on a heap without live blocks although " + su(HC->lim) + " bytes are configured");
-                o.tag("malloc-null");
-                if (!HC->lim && !unrepresentable(n)) o.tag("address-wrap-refused");
-            }
-            if (p && was_empty && HC->lim && rounded(n) + 8 + 64 > HC->lim) o.tag("maximal-alloc-on-empty-heap");
-            if (unrepresentable(n)) o.tag("request-rounding-wraps");
-            if (p)
-            {
-                size_t fl_after = 0;
-                for (struct __freelist *f = FLP; f && fl_after < 100000; f = f->nx) fl_after++;
-                if (BRK != brk_before) o.tag("malloc-extend");
-                else if (fl_after < fl_before) o.tag(hdr_of(p) == (n < 8 ? 8 : (n + 63) / 64 * 64) ? "malloc-exact" : "malloc-whole");
-                else o.tag("malloc-split");
-            }
-            if (n == 0) o.tag("size0");
-        }
-        else if (op == "mx")
-        {
-            // probe of finding C10-heap-arena-unbounded-by-default: a request larger than what is left of the arena,
-            // no heap end configured.  Judged without touching the block, which is released at once.
-            size_t n = strtoul(w[2].c_str(), 0, 10);
-            char *p = (char *)A->malloc_(n);
-            if (p && !block_in_arena(p, n)) o.fail("malloc(" + su(n) + ") returned a block that reaches " + su((size_t)(p - HC->start) + n - HC->cap) + " bytes behind the arena (no heap end configured: the break is unbounded)");
-            if (p) A->free_(p);
-            o.tag("probe-unbounded");
-        }
-        else if (op == "al")
-        {
-            // probe of finding C10-heap-align-max-align-t: is the payload aligned for max_align_t?
-            auto it = HC->live.find(atoi(w[1].c_str()));
-            if (it != HC->live.end() && (uintptr_t)it->second.p % alignof(max_align_t))
-                o.fail("payload at offset " + s(it->second.p - HC->start) + " is not aligned for max_align_t (" + s(alignof(max_align_t)) + ")");
-            o.tag("probe-maxalign");
-        }
-        else if (op == "f")
-        {
-            slot = atoi(w[1].c_str());
-            auto it = HC->live.find(slot);
-            if (it == HC->live.end())
-            {
-                SW.begin(nullptr);
-                A->free_(nullptr);
-                SW.end(o);
-                o.tag("free-null");
-            }
-            else
-            {
-                Blk b = it->second;
-                std::string why;
-                if (!heap_intact(b, b.n, b.p, why)) o.fail("contents changed before free at " + why);
-                HC->live.erase(it);
-                SW.begin(b.p);
-                A->free_(b.p);
-                SW.end(o);
-                size_t fl_after = 0;
-                for (struct __freelist *f = FLP; f && fl_after < 100000; f = f->nx) fl_after++;
-                if (BRK != brk_before) o.tag("free-lower-brk");
-                if (fl_after + 1 == fl_before && BRK == brk_before) o.tag("free-merge-both");
-                else if (fl_after == fl_before && BRK == brk_before) o.tag("free-merge-one");
-                else if (fl_after == fl_before + 1) o.tag("free-insert");
-                if (BRK != brk_before && fl_after < fl_before) o.tag("free-merge-then-lower");
-            }
-        }
-        else if (op == "r")
-        {
-            slot = atoi(w[1].c_str());
-            size_t n = strtoul(w[2].c_str(), 0, 10);
-            auto it = HC->live.find(slot);
-            if (it == HC->live.end())
-            {
-                const char *brk_addr = BRK ? BRK : HC->start;
-                SW.begin(nullptr);
-                char *p = (char *)A->realloc_(nullptr, n);
-                SW.end(o);
-                o.tag("realloc-null-ptr");
-                if (p && !block_in_arena(p, n))
-                {
-                    o.fail("realloc(NULL, " + su(n) + ") returned a block that is not inside the arena");
-                    o.result = "ret=outside";
-                    return;
-                }
-                if (p)
-                {
-                    Blk b{p, n, 0, hdr_of(p)};
-                    if (hdr_of(p) < n)
-                    {
-                        o.fail("usable size " + su(hdr_of(p)) + " < request " + su(n));
-                        b.n = hdr_of(p);
-                    }
-                    heap_fill(b);
-                    HC->live[slot] = b;
-                    ret = s(p - HC->start);
-                }
-                else
-                {
-                    ret = "null";
-                    if (!HC->lim && !addr_wraps(brk_addr, n)) o.fail("realloc(NULL, n) returned NULL without a heap limit");
-                    if (!HC->lim && !unrepresentable(n)) o.tag("address-wrap-refused");
-                }
-                if (unrepresentable(n)) o.tag("request-rounding-wraps");
-            }
-            else
-            {
-                Blk old = it->second;
-                size_t old_hdr = hdr_of(old.p);
-                // keep a copy of the old contents: the old block may be recycled
-                std::vector<char> copy(old.p, old.p + old.n);
-                HC->live.erase(it);
-                // while realloc runs, the old block is still owned by the caller
-                const char *brk_addr = BRK ? BRK : HC->start;
-                SW.begin(old.p);
-                char *p = (char *)A->realloc_(old.p, n);
-                SW.end(o);
-                if (p && !block_in_arena(p, n))
-                {
-                    o.fail("realloc(p, " + su(n) + ") returned a block that is not inside the arena");
-                    o.result = "ret=outside";
-                    return;
-                }
-                if (p)
-                {
-                    size_t keep = std::min(old.n, n);
-                    std::string why;
-                    if (!heap_intact(old, keep, p, why)) o.fail("realloc lost the common prefix at " + why);
-                    Blk b{p, n, 0, hdr_of(p)};
-                    if (hdr_of(p) < n)
-                    {
-                        o.fail("usable size " + su(hdr_of(p)) + " < request " + su(n));
-                        b.n = hdr_of(p);
-                    }
-                    heap_fill(b);
-                    HC->live[slot] = b;
-                    ret = s(p - HC->start);
-                    if (p != old.p) o.tag("realloc-move");
-                    else if (BRK != brk_before && n > old.n) o.tag("realloc-extend-top");
-                    else if (hdr_of(p) > old_hdr) o.tag("realloc-grow-into-neighbour");
-                    else if (hdr_of(p) < old_hdr) o.tag("realloc-shrink-split");
-                    else o.tag("realloc-same-chunk");
-                }
-                else
-                {
-                    ret = "null";
-                    // NULL without a heap end: only when ptr + len or the moved chunk would cross the top of the address space
-                    if (!HC->lim && !addr_wraps(old.p - 8, n) && !addr_wraps(brk_addr, n)) o.fail("realloc returned NULL without a heap limit");
-                    if (unrepresentable(n)) o.tag("request-rounding-wraps");
-                    else if (!HC->lim) o.tag("address-wrap-refused");
-                    // the old block must still be there, untouched
-                    std::string why;
-                    if (!heap_intact(old, old.n, old.p, why)) o.fail("failed realloc damaged the old block at " + why);
-                    HC->live[slot] = old;
-                    o.tag("realloc-fail");
-                }
-                if (n == 0) o.tag("size0");
-            }
-        }
-        else
-        {
-            o.result = "bad-op";
-            return;
-        }
-        FreeList fl = walk_freelist(o);
-        o.result = heap_line(ret, fl);
-        heap_oracle(o, -1, fl);
+        c10::heap_op(w, o);
         return;
     }
     o.result = "bad-op";
 }
 
-// ---------------------------------------------------------------- gen
-static size_t pick_size(rng &r)
-{
-    static const std::vector<size_t> cls = {0, 1, 7, 8, 9, 15, 16, 17, 63, 64, 65, 56, 72, 120, 127, 128, 129, 136, 192, 200, 256};
-    unsigned k = (unsigned)r.below(10);
-    if (k < 6) return r.pick(cls);
-    if (k < 8) return (size_t)r.below(2001);
-    return (size_t)r.below(300);
-}
-
-struct HGen
-{
-    rng &r;
-    std::vector<int> live; // slots, in allocation order
-    int next_slot = 0;
-    int max_live;
-    HGen(rng &r_, int max_live_) : r(r_), max_live(max_live_) {}
-    void m(size_t n)
-    {
-        printf("m %d %zu\n", next_slot, n);
-        live.push_back(next_slot++);
-    }
-    void f_at(size_t i)
-    {
-        printf("f %d\n", live[i]);
-        live.erase(live.begin() + i);
-    }
-    void rr(size_t i, size_t n) { printf("r %d %zu\n", live[i], n); }
-    void free_all(int order)
-    {
-        while (!live.empty())
-        {
-            size_t i = order == 0 ? live.size() - 1 : order == 1 ? 0 : (size_t)r.below(live.size());
-            f_at(i);
-        }
-    }
-};
-
-static void gen_heap_random(rng &r, int ncases, int nops, bool rel = false)
-{
-    for (int c = 0; c < ncases; c++)
-    {
-        int mode = c % 5;
-        size_t lim = 0;
-        if (mode == 4) lim = (size_t)r.range(64, 6000); // small arena: exhaustion paths
-        printf("reset heap %zu%s\n", lim, rel ? " rel" : "");
-        HGen g(r, rel ? 400 : 90);
-        // with a limit a request may fail: the generator cannot know, so the
-        // harness treats a slot whose malloc failed as NULL (free(NULL), realloc(NULL))
-        if (mode <= 2)
-        {
-            // phases: allocate k blocks, free them LIFO / FIFO / random, again
-            for (int round = 0; round < 3; round++)
-            {
-                int k = (int)r.range(1, rel ? 130 : 30);
-                for (int i = 0; i < k && (int)g.live.size() < g.max_live; i++) g.m(pick_size(r));
-                // partial release in the phase's order, then refill
-                size_t keep = r.below(g.live.size() + 1);
-                while (g.live.size() > keep)
-                    g.f_at(mode == 0 ? g.live.size() - 1 : mode == 1 ? 0 : (size_t)r.below(g.live.size()));
-                for (int i = 0; i < k / 2 && (int)g.live.size() < g.max_live; i++)
-                {
-                    if (!g.live.empty() && r.chance(30)) g.rr((size_t)r.below(g.live.size()), pick_size(r));
-                    else g.m(pick_size(r));
-                }
-            }
-            g.free_all(mode);
-        }
-        else
-        {
-            // free interleaving (mode 3), the same in a small arena (mode 4)
-            for (int i = 0; i < nops; i++)
-            {
-                unsigned k = (unsigned)r.below(100);
-                if (g.live.empty() || (k < 40 && (int)g.live.size() < g.max_live)) g.m(lim ? (size_t)r.below(lim / 3 + 2) : pick_size(r));
-                else if (k < 70) g.f_at((size_t)r.below(g.live.size()));
-                else if (k < 72) printf("f %d\n", 1000 + (int)r.below(5)); // free(NULL)
-                else if (k < 75) printf("r %d %zu\n", g.next_slot, pick_size(r)), g.live.push_back(g.next_slot++); // realloc(NULL, n)
-                else g.rr((size_t)r.below(g.live.size()), lim ? (size_t)r.below(lim / 2 + 2) : pick_size(r));
-            }
-            g.free_all((int)r.below(3));
-        }
-    }
-}
-
-// small arenas filled to the last byte: the limit tests of malloc (needs len + 8
-// bytes) and of realloc's in-place growth of the topmost chunk (needs ptr + len <= end)
-static void gen_heap_brim(rng &r, int ncases)
-{
-    static const std::vector<int> extras = {0, 7, 8, 15, 16, 17, 23, 24, 56, 63, 64, 65, 71, 72, 73, 80, 136, 144};
-    for (int c = 0; c < ncases; c++)
-    {
-        int k = (int)r.range(1, 5);
-        int extra = extras[(size_t)c % extras.size()];
-        printf("reset heap %d\n", 72 * k + extra);
-        for (int i = 0; i < k; i++) printf("m %d 64\n", i);
-        switch ((c / extras.size()) % 4)
-        {
-        case 0: printf("m %d 0\nm %d 0\nr %d 65\n", k, k + 1, k - 1); break;
-        case 1: printf("r %d 65\nm %d 0\nr %d 129\n", k - 1, k, k - 1); break;
-        case 2: printf("m %d 64\nm %d 0\nm %d 1\n", k, k + 1, k + 2); break;
-        default: printf("r %d 129\nr %d 65\nm %d 64\nm %d 0\n", k - 1, k - 1, k, k + 1); break;
-        }
-        std::vector<int> sl;
-        for (int i = 0; i < k + 3; i++) sl.push_back(i);
-        while (!sl.empty())
-        {
-            size_t i = (size_t)r.below(sl.size());
-            printf("f %d\n", sl[i]);
-            sl.erase(sl.begin() + i);
-        }
-    }
-}
-
-// realloc chains: one or two blocks grown and shrunk repeatedly between neighbours
-static void gen_heap_chains(rng &r, int ncases)
-{
-    for (int c = 0; c < ncases; c++)
-    {
-        printf("reset heap %d\n", c % 7 == 6 ? (int)r.range(300, 3000) : 0);
-        HGen g(r, 90);
-        int k = (int)r.range(1, 6);
-        for (int i = 0; i < k; i++) g.m(pick_size(r));
-        // punch holes so that neighbours are free
-        for (int i = 0; i < k / 2; i++)
-            if (g.live.size() > 1) g.f_at((size_t)r.below(g.live.size()));
-        int steps = (int)r.range(5, 40);
-        size_t cur = pick_size(r);
-        for (int i = 0; i < steps; i++)
-        {
-            unsigned kk = (unsigned)r.below(10);
-            if (kk < 3) cur = cur + (size_t)r.range(1, 200);
-            else if (kk < 6) cur = cur > 0 ? (size_t)r.below(cur + 1) : 0;
-            else cur = pick_size(r);
-            if (g.live.empty()) g.m(cur);
-            else g.rr((size_t)r.below(g.live.size()), cur);
-            if (r.chance(15) && (int)g.live.size() < 8) g.m(pick_size(r));
-            if (r.chance(15) && g.live.size() > 1) g.f_at((size_t)r.below(g.live.size()));
-        }
-        g.free_all((int)r.below(3));
-    }
-}
-
-// Targeted families (history shapes where an off-by-one in a size test, a wrong predecessor or a lost link shows):
-//  0 a free chunk of an exactly chosen size (k coalesced 8-byte chunks [+ a 64-byte one]: every multiple of 8),
-//    then requests that fit exactly / leave 8, 16, 24, 32 bytes (exact fit, whole chunk, smallest split)
-//  1 realloc growing into the upper neighbour: neighbour exactly fitting, 8 bytes short, 8/16/24/32 bytes spare
-//  2 3-way coalescing: adjacent blocks between guards freed in every order, several free chunks around
-//  3 lowering the break with a free chunk right below the top block and holes further down
-//  4 realloc shrinking next to a free chunk / at the top (the split-off tail merges up / lowers the break)
-//  5 best fit among several candidates (first candidate not the smallest), whole-chunk and split variants
-static void gen_heap_targeted(rng &r, int ncases)
-{
-    static const std::vector<size_t> grow = {1, 64, 65, 128, 129, 192, 193, 256};
-    for (int c = 0; c < ncases; c++)
-    {
-        int fam = c % 6;
-        size_t lim = c % 13 == 12 ? (size_t)r.range(700, 2600) : 0;
-        printf("reset heap %zu\n", lim);
-        HGen g(r, 90);
-        auto free_slot = [&](int slot) {
-            for (size_t i = 0; i < g.live.size(); i++)
-                if (g.live[i] == slot)
-                {
-                    g.f_at(i);
-                    return;
-                }
-        };
-        auto idx_of = [&](int slot) -> size_t {
-            for (size_t i = 0; i < g.live.size(); i++)
-                if (g.live[i] == slot) return i;
-            return 0;
-        };
-        auto shuffled = [&](std::vector<int> v) {
-            for (size_t i = v.size(); i > 1; i--) std::swap(v[i - 1], v[(size_t)r.below(i)]);
-            return v;
-        };
-        // k zero-size blocks (8-byte chunks) with an optional 64-byte block among them: returns their slots
-        auto small_run = [&](int k, bool with64) {
-            std::vector<int> sl;
-            int pos64 = with64 ? (int)r.below((uint64_t)k + 1) : -1;
-            for (int i = 0; i <= k; i++)
-            {
-                if (i == pos64)
-                {
-                    sl.push_back(g.next_slot);
-                    g.m(64);
-                }
-                if (i < k)
-                {
-                    sl.push_back(g.next_slot);
-                    g.m(r.chance(80) ? 0 : 8);
-                }
-            }
-            return sl;
-        };
-        switch (fam)
-        {
-        case 0:
-        {
-            if (r.chance(60)) g.m(pick_size(r));
-            std::vector<int> run = small_run((int)r.range(1, 10), r.chance(40));
-            if (r.chance(85)) g.m(pick_size(r)); // guard above (without it the run ends at the break)
-            for (int sl : shuffled(run)) free_slot(sl);
-            for (int i = 0, n = (int)r.range(1, 4); i < n; i++) g.m(r.pick(grow) - (r.chance(30) ? 1 : 0));
-            break;
-        }
-        case 1:
-        {
-            if (r.chance(50)) g.m(pick_size(r));
-            int a = g.next_slot;
-            g.m(r.chance(50) ? 0 : r.chance(50) ? 64 : 128);
-            std::vector<int> run = small_run((int)r.range(1, 12), r.chance(35));
-            bool guard = r.chance(80);
-            if (guard) g.m(pick_size(r));
-            if (r.chance(30)) g.m(0);
-            for (int sl : shuffled(run)) free_slot(sl);
-            g.rr(idx_of(a), r.pick(grow));
-            if (r.chance(60)) g.rr(idx_of(a), r.pick(grow));
-            if (r.chance(40)) g.m(r.pick(grow));
-            if (r.chance(40)) g.rr(idx_of(a), (size_t)r.below(70));
-            break;
-        }
-        case 2:
-        {
-            int groups = (int)r.range(1, 3);
-            std::vector<std::vector<int>> gs;
-            g.m(pick_size(r));
-            for (int k = 0; k < groups; k++)
-            {
-                std::vector<int> grp;
-                for (int i = 0, n = (int)r.range(3, 4); i < n; i++)
-                {
-                    grp.push_back(g.next_slot);
-                    g.m(pick_size(r));
-                }
-                gs.push_back(grp);
-                g.m(pick_size(r)); // guard between the groups
-            }
-            std::vector<int> all;
-            for (auto &grp : gs)
-                for (int sl : grp) all.push_back(sl);
-            for (int sl : shuffled(all)) free_slot(sl);
-            for (int i = 0; i < 2; i++) g.m(r.pick(grow));
-            break;
-        }
-        case 3:
-        {
-            int n = (int)r.range(4, 9);
-            std::vector<int> sl;
-            for (int i = 0; i < n; i++)
-            {
-                sl.push_back(g.next_slot);
-                g.m(r.chance(50) ? 0 : pick_size(r));
-            }
-            // holes further down, then the block below the top, then the top block
-            for (int i = 0; i + 3 < n; i++)
-                if (r.chance(45)) free_slot(sl[(size_t)i]);
-            if (r.chance(80)) free_slot(sl[(size_t)n - 2]);
-            free_slot(sl[(size_t)n - 1]);
-            if (r.chance(50)) free_slot(sl[(size_t)n - 3]); // now adjacent to the lowered break
-            g.m(r.pick(grow));
-            if (r.chance(50) && !g.live.empty()) g.f_at(g.live.size() - 1);
-            break;
-        }
-        case 4:
-        {
-            int a = g.next_slot;
-            g.m(r.pick(grow) + 64);
-            int b = g.next_slot;
-            g.m(r.chance(50) ? 0 : pick_size(r));
-            int cc = g.next_slot;
-            g.m(r.pick(grow) + 128);
-            if (r.chance(60)) free_slot(b);
-            g.rr(idx_of(a), r.chance(50) ? 0 : (size_t)r.below(70));  // tail merges with the chunk of b (or not)
-            g.rr(idx_of(cc), r.chance(50) ? 0 : (size_t)r.below(130)); // tail is the topmost chunk: break lowered
-            if (r.chance(50)) g.rr(idx_of(cc), r.pick(grow) + 200);    // and up again
-            if (r.chance(50)) g.rr(idx_of(a), r.pick(grow) + 64);      // grow back into its own tail
-            break;
-        }
-        default:
-        {
-            // several free chunks of different sizes in random address order, then requests that are
-            // served from the smallest fitting one (not the first candidate)
-            std::vector<int> holes;
-            int n = (int)r.range(2, 5);
-            for (int i = 0; i < n; i++)
-            {
-                size_t sz = r.pick(grow) + (size_t)r.below(3) * 64;
-                if (r.chance(40))
-                {
-                    std::vector<int> run = small_run((int)r.range(1, 4), true);
-                    for (int sl : run) holes.push_back(sl);
-                }
-                else
-                {
-                    holes.push_back(g.next_slot);
-                    g.m(sz);
-                }
-                g.m(r.chance(50) ? 0 : 64); // guard
-            }
-            for (int sl : shuffled(holes)) free_slot(sl);
-            for (int i = 0, k = (int)r.range(2, 5); i < k; i++) g.m(r.pick(grow));
-            break;
-        }
-        }
-        g.free_all((int)r.below(3));
-    }
-}
-
-// requests close to SIZE_MAX: rounding the request up to a multiple of __WORDSIZE wraps around
-static void gen_heap_huge(rng &r, int ncases)
-{
-    for (int c = 0; c < ncases; c++)
-    {
-        size_t lim = c % 2 ? (size_t)r.range(300, 3000) : 0;
-        printf("reset heap %zu\n", lim);
-        HGen g(r, 90);
-        auto huge = [&]() -> size_t {
-            unsigned k = (unsigned)r.below(4);
-            if (k == 0) return SIZE_MAX - (size_t)r.below(64);           // rounding wraps (or is exact: SIZE_MAX - 63)
-            if (k == 1) return SIZE_MAX - 63 - (size_t)r.below(130);     // around the first representable size
-            if (k == 2) return SIZE_MAX - (size_t)r.below(3);
-            return (SIZE_MAX / 2 + 1) + (size_t)r.range(-70, 70);
-        };
-        for (int i = 0, n = (int)r.range(0, 4); i < n; i++) g.m(pick_size(r));
-        if (g.live.size() > 1 && r.chance(50)) g.f_at((size_t)r.below(g.live.size() - 1));
-        for (int i = 0, n = (int)r.range(2, 6); i < n; i++)
-        {
-            unsigned k = (unsigned)r.below(3);
-            // when a heap end is configured every huge request must fail; without one only the unrepresentable ones do
-            size_t h = huge();
-            if (!lim) h = SIZE_MAX - (size_t)r.below(63);
-            // realloc computes ptr + len before anything else: keep that sum below 2^64 (the `cp < cp1` test of the
-            // code relies on pointer wrap-around, which UBSan reports; address wrap-around is outside the model)
-            size_t hr = r.chance(50) ? SIZE_MAX - (size_t)r.below(63) : lim ? (SIZE_MAX / 4 + 1) + (size_t)r.range(-70, 70) : h;
-            if (k == 0) printf("m %d %zu\n", 2000 + i, h); // slot stays empty when it fails
-            else if (k == 1 && !g.live.empty()) g.rr((size_t)r.below(g.live.size()), hr);
-            else printf("r %d %zu\n", 3000 + i, h); // realloc(NULL, huge)
-            if (r.chance(50)) g.m(pick_size(r));
-        }
-        for (int i = 0; i < 6; i++) printf("f %d\nf %d\n", 2000 + i, 3000 + i);
-        g.free_all((int)r.below(3));
-    }
-}
-
-// ADDRESS wrap-around without a heap end: requests so large that the new chunk (malloc step 3, the move path of
-// realloc) or `ptr + len` (realloc) would cross the top of the 64-bit address space.  All must be refused with the
-// heap unchanged; the history then goes on (a wrapped break would make later blocks overlap live ones).
-// Sizes are >= 2^64 - 2^32: the verdict is the same for every arena address in [2^32, 2^47).
-static void gen_heap_addrwrap(rng &r, int ncases)
-{
-    auto wrapsz = [&]() -> size_t {
-        unsigned k = (unsigned)r.below(5);
-        if (k == 0) return SIZE_MAX - 63 - 64 * (size_t)r.below(4);          // the largest representable requests
-        if (k == 1) return SIZE_MAX - 63 - 64 * (size_t)r.below(1u << 20);
-        if (k == 2) return SIZE_MAX - (size_t)r.below(1ull << 31);             // any residue (most need rounding)
-        if (k == 3) return SIZE_MAX - 63 - 8;                                   // rounds to SIZE_MAX - 63
-        return SIZE_MAX - (1ull << 32) + 1 + (size_t)r.below(1ull << 31);
-    };
-    for (int c = 0; c < ncases; c++)
-    {
-        printf("reset heap 0%s\n", c % 4 == 3 ? " rel" : "");
-        HGen g(r, 90);
-        for (int i = 0, n = (int)r.range(0, 5); i < n; i++) g.m(pick_size(r));
-        if (g.live.size() > 1 && r.chance(60)) g.f_at((size_t)r.below(g.live.size() - 1)); // a free chunk: step 1/2 cannot serve the request
-        for (int i = 0, n = (int)r.range(2, 7); i < n; i++)
-        {
-            unsigned k = (unsigned)r.below(4);
-            if (k == 0) printf("m %d %zu\n", 2000 + i, wrapsz());              // refused: slot stays empty
-            else if (k == 1 && !g.live.empty()) g.rr((size_t)r.below(g.live.size()), wrapsz()); // ptr + len wraps
-            else if (k == 2) printf("r %d %zu\n", 3000 + i, wrapsz());         // realloc(NULL, huge)
-            else g.m(pick_size(r));
-            if (r.chance(40)) g.m(pick_size(r));
-            if (r.chance(25) && g.live.size() > 1) g.f_at((size_t)r.below(g.live.size()));
-        }
-        for (int i = 0; i < 7; i++) printf("f %d\nf %d\n", 2000 + i, 3000 + i);
-        g.free_all((int)r.below(3));
-    }
-}
-
-// "memory is not lost": in an arena with a heap end, after ANY history whose blocks are all freed in ANY order the
-// heap is back in its initial state, so the largest request the arena can hold succeeds again (and one word more fails)
-static void gen_heap_maxalloc(rng &r, int ncases)
-{
-    for (int c = 0; c < ncases; c++)
-    {
-        size_t lim = 72 + 64 * (size_t)r.range(1, 60) + (c % 3 == 0 ? (size_t)r.below(64) : 0);
-        printf("reset heap %zu\n", lim);
-        HGen g(r, 90);
-        size_t maxreq = (lim - 8) / 64 * 64;
-        if (c % 5 == 0) printf("m 900 %zu\nf 900\n", maxreq);
-        for (int i = 0, n = (int)r.range(3, 40); i < n; i++)
-        {
-            unsigned k = (unsigned)r.below(100);
-            if (g.live.empty() || (k < 50 && (int)g.live.size() < g.max_live)) g.m((size_t)r.below(lim / 4 + 2));
-            else if (k < 80) g.f_at((size_t)r.below(g.live.size()));
-            else g.rr((size_t)r.below(g.live.size()), (size_t)r.below(lim / 3 + 2));
-        }
-        // slots whose malloc failed are NULL for the harness: free(NULL)
-        {
-            // sizes around 2^16 / 2^31 / 2^32: far beyond the arena, must fail cleanly (a narrowed size computation would not)
-            static const std::vector<size_t> wide = {65535, 65536, 65537, 2147483647ull, 2147483648ull, 4294967295ull, 4294967296ull, 4294967297ull, 4294967304ull, 4294967360ull};
-            size_t w1 = r.pick(wide), w2 = r.pick(wide);
-            if (w1 + 8 > lim) printf("m 904 %zu\nf 904\n", w1);
-            if (w2 + 8 > lim && !g.live.empty()) g.rr((size_t)r.below(g.live.size()), w2);
-        }
-        g.free_all(c % 3);
-        printf("m 901 %zu\n", maxreq + 1 + (size_t)r.below(64)); // one word too many: NULL, nothing changes
-        printf("m 902 %zu\n", maxreq - (size_t)r.below(64));     // the maximal request: must succeed
-        printf("r 902 %zu\nr 902 %zu\nf 902\nf 901\n", (size_t)r.below(maxreq + 1), maxreq);
-        printf("m 903 %zu\nf 903\n", maxreq);
-    }
-}
-
-// long inputs / boundary sizes: blocks of 255..257, 65535..65537 and >= 300 KiB bytes (the move path copies them),
-// in the 1 MiB static arena
-static void gen_heap_big(rng &r, int ncases)
-{
-    static const std::vector<size_t> big = {255, 256, 257, 4095, 4096, 4097, 65535, 65536, 65537, 307200, 310000};
-    for (int c = 0; c < ncases; c++)
-    {
-        printf("reset heap 0%s\n", c % 2 ? " rel" : "");
-        HGen g(r, 90);
-        size_t a = big[(size_t)c % big.size()];
-        g.m(a);
-        g.m(r.pick(big) % 70000);
-        g.rr(0, a + (size_t)r.range(1, 70000)); // blocked by the block above: malloc + memcpy of `a` bytes + free
-        g.m(a / 2);                              // reuses the hole (split)
-        g.rr(0, a);                              // shrink-split of the moved block
-        if (c % 3 == 0) g.rr(0, 307200 + (size_t)r.below(1000));
-        g.free_all((int)r.below(3));
-    }
-}
-
-// every history of exactly `depth` requests over the size alphabet `al`,
-// followed by the release of whatever is still live (ascending or descending)
-static long gen_heap_exhaustive(const std::vector<size_t> &al, int depth, bool with_realloc, long part, long nparts)
-{
-    struct Step
-    {
-        char op;
-        int slot;
-        size_t n;
-    };
-    std::vector<Step> hist;
-    long count = 0, idx = 0;
-    std::function<void(std::vector<int> &, int)> rec = [&](std::vector<int> &live, int next) {
-        if ((int)hist.size() == depth)
-        {
-            if (idx++ % nparts != part) return;
-            count++;
-            puts("reset heap 0");
-            for (auto &st : hist)
-            {
-                if (st.op == 'f') printf("f %d\n", st.slot);
-                else printf("%c %d %zu\n", st.op, st.slot, st.n);
-            }
-            std::vector<int> l = live;
-            if (idx % 2) std::reverse(l.begin(), l.end());
-            for (int sl : l) printf("f %d\n", sl);
-            return;
-        }
-        for (size_t n : al)
-        {
-            hist.push_back({'m', next, n});
-            live.push_back(next);
-            rec(live, next + 1);
-            live.pop_back();
-            hist.pop_back();
-        }
-        for (size_t i = 0; i < live.size(); i++)
-        {
-            int sl = live[i];
-            hist.push_back({'f', sl, 0});
-            live.erase(live.begin() + i);
-            rec(live, next);
-            live.insert(live.begin() + i, sl);
-            hist.pop_back();
-        }
-        if (with_realloc)
-            for (size_t i = 0; i < live.size(); i++)
-                for (size_t n : al)
-                {
-                    hist.push_back({'r', live[i], n});
-                    rec(live, next);
-                    hist.pop_back();
-                }
-    };
-    std::vector<int> live;
-    rec(live, 0);
-    return count;
-}
-
-static void gen_pool_case(rng &r, bool ip, size_t e, size_t cap)
-{
-    printf("reset %s %zu %zu\n", ip ? "ipool" : "pool", e, cap);
-    const char *A = ip ? "g" : "a";
-    const char *F = ip ? "p" : "f";
-    // the generator mirrors the LIFO discipline of the free list to know which
-    // offsets are live (the harness oracle does not rely on it)
-    std::vector<size_t> freel, live;
-    for (size_t i = 0; i < cap; i++) freel.push_back(i * e); // back() = list head
-    if (ip) puts("sz");
-    auto alloc = [&]() {
-        puts(A);
-        if (!freel.empty())
-        {
-            live.push_back(freel.back());
-            freel.pop_back();
-        }
-    };
-    auto rel = [&](size_t i) {
-        printf("%s %zu\n", F, live[i]);
-        freel.push_back(live[i]);
-        live.erase(live.begin() + i);
-    };
-    auto probes = [&]() {
-        if (ip)
-        {
-            puts("it");
-            printf("ca %ld\n", (long)r.range(-2, (long)cap + 1));
-            if (r.chance(30)) puts("p null");
-        }
-        else
-            printf("in %zu\n", (size_t)r.below(cap) * e);
-    };
-    // exhaust: capacity allocations succeed, then null (twice)
-    for (size_t i = 0; i < cap + 2; i++) alloc();
-    probes();
-    int order = (int)r.below(3);
-    size_t keep = r.below(live.size() + 1);
-    while (live.size() > keep) rel(order == 0 ? live.size() - 1 : order == 1 ? 0 : (size_t)r.below(live.size()));
-    probes();
-    // random interleaving
-    int n = (int)r.range(5, 40);
-    for (int i = 0; i < n; i++)
-    {
-        if (live.empty() || r.chance(55)) alloc();
-        else rel((size_t)r.below(live.size()));
-        if (r.chance(20)) probes();
-    }
-    while (!live.empty()) rel((size_t)r.below(live.size()));
-    probes();
-    for (size_t i = 0; i < cap + 1; i++) alloc();
-    probes();
-}
-
-// one igris::pool object initialised again and again with other zones / element sizes / capacities, each time in
-// a different state (exhausted, partly handed out, everything returned)
-static void gen_ipool_reinit(rng &r)
-{
-    size_t e = 8 * (size_t)r.range(1, 8), cap = (size_t)r.range(1, 20);
-    printf("reset ipool %zu %zu\n", e, cap);
-    for (int round = 0; round < 4; round++)
-    {
-        std::vector<size_t> freel, live;
-        for (size_t i = 0; i < cap; i++) freel.push_back(i * e);
-        size_t want = round == 0 ? cap + 1 : (size_t)r.below(cap + 2);
-        for (size_t i = 0; i < want; i++)
-        {
-            puts("g");
-            if (!freel.empty())
-            {
-                live.push_back(freel.back());
-                freel.pop_back();
-            }
-        }
-        for (size_t i = 0, n = r.below(live.size() + 1); i < n; i++)
-        {
-            size_t j = (size_t)r.below(live.size());
-            printf("p %zu\n", live[j]);
-            freel.push_back(live[j]);
-            live.erase(live.begin() + j);
-        }
-        puts("it");
-        e = 8 * (size_t)r.range(1, 8);
-        cap = (size_t)r.range(1, 20);
-        printf("ri %zu %zu\nsz\n", e, cap);
-    }
-    for (size_t i = 0; i < cap + 1; i++) puts("g");
-    puts("it");
-}
-
-// realloc in every neighbour configuration: blocks A B C [D]; B is reallocated with the chunk below (A) and / or
-// above (C) free, with C a guard, or with B the topmost chunk; growth by less than / exactly / more than what the
-// free neighbour above offers, and shrinks; then everything is released in a random order
-static void gen_heap_neighbours(rng &r, int ncases)
-{
-    static const std::vector<size_t> szs = {0, 64, 128, 192, 256};
-    for (int c = 0; c < ncases; c++)
-    {
-        size_t lim = c % 11 == 10 ? (size_t)r.range(900, 3000) : 0;
-        printf("reset heap %zu\n", lim);
-        HGen g(r, 90);
-        int cfgi = c % 8; // bit 0: A free, bit 1: C free, bit 2: no guard D (C or B ends at the break)
-        size_t a = r.pick(szs), b = r.pick(szs), cc = r.pick(szs);
-        if (r.chance(50)) g.m(r.pick(szs)); // something below A
-        int A = g.next_slot; g.m(a);
-        int B = g.next_slot; g.m(b);
-        int C = -1;
-        bool top = (cfgi & 4) && r.chance(50); // B itself is the topmost chunk
-        if (!top) { C = g.next_slot; g.m(cc); }
-        if (!(cfgi & 4)) g.m(r.pick(szs)); // guard D
-        auto idx = [&](int slot) -> size_t { for (size_t i = 0; i < g.live.size(); i++) if (g.live[i] == slot) return i; return 0; };
-        if (cfgi & 1) g.f_at(idx(A));
-        if ((cfgi & 2) && C >= 0) g.f_at(idx(C));
-        size_t cur = b < 8 ? 8 : b, room = (cfgi & 2) && C >= 0 ? (cc < 8 ? 8 : cc) + 8 : 0;
-        for (int i = 0, n = (int)r.range(1, 4); i < n; i++)
-        {
-            unsigned k = (unsigned)r.below(6);
-            size_t want = k == 0 ? cur + room : k == 1 ? cur + room + 1 : k == 2 ? (cur + room >= 8 ? cur + room - 8 : 0) : k == 3 ? cur / 2 : k == 4 ? cur + 64 : (size_t)r.below(400);
-            g.rr(idx(B), want);
-        }
-        g.free_all((int)r.below(3));
-    }
-}
-
-// one pool_head, 1..4 zones of different sizes engaged at arbitrary points of the history
-// (shape 0: random; 1: all zones back to back, then exhaust; 2: exhaust, engage onto the drained pool,
-//  free some, engage onto a non-empty list; 3: alloc/free a little, then engage), interleaved with alloc/free.
-static void gen_mpool_case(rng &r, int shape, bool mixed_elemsz)
-{
-    puts("reset mpool");
-    size_t nz = (size_t)r.range(1, 4);
-    if (shape && nz < 2) nz = 2;
-    size_t e0 = 8 * (size_t)r.range(1, 8);
-    std::vector<std::pair<size_t, size_t>> zs; // cells, elemsz
-    for (size_t k = 0; k < nz; k++)
-    {
-        size_t n = r.chance(8) ? 0 : (size_t)r.range(1, r.chance(20) ? 33 : 9);
-        zs.push_back({n, mixed_elemsz ? 8 * (size_t)r.range(1, 8) : e0});
-    }
-    // the generator mirrors the LIFO discipline of the free list to know which cells are live
-    std::vector<std::pair<size_t, size_t>> freel, live;
-    size_t engaged = 0, cap = 0;
-    auto engage = [&]() {
-        if (engaged >= nz) return;
-        printf("z %zu %zu\n", zs[engaged].first, zs[engaged].second);
-        for (size_t i = 0; i < zs[engaged].first; i++) freel.push_back({engaged, i * zs[engaged].second});
-        cap += zs[engaged].first;
-        engaged++;
-    };
-    auto alloc = [&]() {
-        puts("a");
-        if (!freel.empty())
-        {
-            live.push_back(freel.back());
-            freel.pop_back();
-        }
-    };
-    auto rel = [&](size_t i) {
-        printf("f %zu %zu\n", live[i].first, live[i].second);
-        freel.push_back(live[i]);
-        live.erase(live.begin() + i);
-    };
-    auto probe = [&]() {
-        if (!engaged) return;
-        size_t k = (size_t)r.below(engaged);
-        if (zs[k].first) printf("in %zu %zu\n", k, (size_t)r.below(zs[k].first) * zs[k].second);
-    };
-    auto exhaust = [&]() {
-        size_t todo = freel.size() + 2;
-        for (size_t i = 0; i < todo; i++) alloc();
-    };
-    auto rel_some = [&]() {
-        int order = (int)r.below(3);
-        size_t keep = r.below(live.size() + 1);
-        while (live.size() > keep) rel(order == 0 ? live.size() - 1 : order == 1 ? 0 : (size_t)r.below(live.size()));
-    };
-    switch (shape)
-    {
-    case 1:
-        while (engaged < nz) engage();
-        exhaust();
-        probe();
-        rel_some();
-        break;
-    case 2:
-        engage();
-        exhaust();
-        engage(); // onto a drained pool
-        exhaust();
-        rel_some();
-        probe();
-        while (engaged < nz)
-        {
-            engage(); // onto a list that holds freed cells
-            if (r.chance(50)) alloc();
-        }
-        exhaust();
-        break;
-    case 3:
-        engage();
-        for (int i = 0, n = (int)r.range(1, 6); i < n; i++) alloc();
-        if (!live.empty()) rel((size_t)r.below(live.size()));
-        if (!live.empty() && r.chance(50)) rel((size_t)r.below(live.size()));
-        while (engaged < nz)
-        {
-            engage();
-            if (r.chance(60)) alloc();
-            if (!live.empty() && r.chance(60)) rel((size_t)r.below(live.size()));
-        }
-        exhaust();
-        break;
-    default:
-        if (r.chance(70)) engage();
-        break;
-    }
-    int n = (int)r.range(8, 50);
-    for (int i = 0; i < n; i++)
-    {
-        unsigned k = (unsigned)r.below(100);
-        if (engaged < nz && k < 12) engage();
-        else if (live.empty() || k < 60) alloc();
-        else rel((size_t)r.below(live.size()));
-        if (r.chance(15)) probe();
-    }
-    while (engaged < nz) engage();
-    // everything back, then exactly the capacity (the sum over all zones) must be handed out again
-    while (!live.empty()) rel((size_t)r.below(live.size()));
-    for (size_t i = 0; i < cap + 1; i++) alloc();
-    probe();
-}
-
-// the three twins on one history, cells named by request slots (no assumption on which cell is handed out)
-static void gen_tri_case(rng &r, size_t idx)
-{
-    size_t cap = sop_kinds[idx].cap;
-    printf("reset tri %zu\n", idx);
-    std::vector<int> live;
-    int next = 0;
-    auto alloc = [&]() {
-        printf("a %d\n", next);
-        if (live.size() < cap) live.push_back(next);
-        next++;
-    };
-    auto rel = [&](size_t i) {
-        printf("f %d\n", live[i]);
-        live.erase(live.begin() + i);
-    };
-    for (size_t i = 0; i < cap + 2; i++) alloc(); // exactly the capacity, then null twice
-    printf("f %d\n", next - 1);                   // a slot that holds NULL
-    int order = (int)r.below(3);
-    size_t keep = r.below(live.size() + 1);
-    while (live.size() > keep) rel(order == 0 ? live.size() - 1 : order == 1 ? 0 : (size_t)r.below(live.size()));
-    for (int i = 0, n = (int)r.range(5, 40); i < n; i++)
-    {
-        if (live.empty() || r.chance(55)) alloc();
-        else rel((size_t)r.below(live.size()));
-    }
-    while (!live.empty()) rel((size_t)r.below(live.size()));
-    for (size_t i = 0; i < cap + 1; i++) alloc();
-    while (!live.empty()) rel(live.size() - 1); // destroy everything: the harness deletes the pool afterwards
-}
-
-static void gen_sop_case(rng &r, const SopKind &k, bool extra_zones = false)
-{
-    printf("reset sop %zu %zu %zu\n", k.sz, k.al, k.cap);
-    size_t al = std::max(k.al, (size_t)8);
-    size_t st = (std::max(k.sz, (size_t)8) + al - 1) / al * al;
-    std::vector<std::pair<size_t, size_t>> freel, live; // (zone, offset)
-    for (size_t i = 0; i < k.cap; i++) freel.push_back({0, i * st});
-    size_t nzones = 1, cap = k.cap;
-    auto create = [&]() {
-        puts("c");
-        if (!freel.empty())
-        {
-            live.push_back(freel.back());
-            freel.pop_back();
-        }
-    };
-    auto destroy = [&](size_t i) {
-        if (live[i].first) printf("d %zu %zu\n", live[i].first, live[i].second);
-        else printf("d %zu\n", live[i].second);
-        freel.push_back(live[i]);
-        live.erase(live.begin() + i);
-    };
-    // a further zone handed to the pool through freelist()
-    auto engage = [&]() {
-        size_t n = r.chance(10) ? 0 : (size_t)r.range(1, 6);
-        printf("x %zu\n", n);
-        for (size_t i = 0; i < n; i++) freel.push_back({nzones, i * st});
-        nzones++;
-        cap += n;
-    };
-    if (extra_zones && r.chance(30)) engage(); // onto the full list of the fresh pool
-    for (size_t i = 0; i < cap + 1; i++) create();
-    int n = (int)r.range(5, 60);
-    for (int i = 0; i < n; i++)
-    {
-        if (extra_zones && nzones < 4 && r.chance(8)) engage();
-        else if (live.empty() || r.chance(50)) create();
-        else destroy((size_t)r.below(live.size()));
-    }
-    while (!live.empty()) destroy((size_t)r.below(live.size()));
-    if (extra_zones && nzones < 4) engage();
-    for (size_t i = 0; i < cap + 1; i++) create();
-    // destroy everything: the harness deletes the pool afterwards
-    while (!live.empty()) destroy(live.size() - 1);
-}
-
-static void gen(rng &r, const std::string &tier)
-{
-    bool th = tier == "thorough";
-    puts("consts");
-    puts("consts2");
-    puts("early");
-    puts("reset crit m\nreset crit f\nreset crit r");
-    // ---- pools: element sizes 8..64, capacities 1..33
-    for (size_t cap = 1; cap <= 33; cap++)
-        for (size_t k = 1; k <= 8; k++)
-        {
-            if (!th && k != 1 + (cap + g_seed) % 8) continue;
-            gen_pool_case(r, false, 8 * k, cap);
-            gen_pool_case(r, true, 8 * k, cap);
-        }
-    for (int i = 0; i < (th ? 60 : 12); i++)
-    {
-        gen_pool_case(r, i % 2, 8 * (size_t)r.range(1, 8), (size_t)r.range(1, 33));
-    }
-    // capacities around 2^8 (igris::pool: `int _count`, iterator index `int _num`), and one pool of 2^16 + 1 cells
-    for (size_t cap : {255, 256, 257})
-        if (th || cap == 255 + g_seed % 3) gen_pool_case(r, true, 8, cap);
-    if (th) gen_pool_case(r, false, 8, 256);
-    puts("reset ipool 8 65537\nsz\ng\ng\nca 65536\nca 65535\nca 65537\nca 0\np 524288\ng\np 524288\np 524280\nsz");
-    // element sizes that are not a multiple of the pointer size (the link is then stored
-    // misaligned, which the host tolerates): arena and capacity clauses still apply
-    for (size_t e : {12, 20, 28, 36, 44})
-        for (size_t cap : {1, 3, 4, 7})
-            if (th || (e / 4 + cap + g_seed) % 3 == 0)
-                gen_pool_case(r, (e / 4 + cap) % 2, e, cap);
-    // element sizes smaller than the link / zones that are not whole cells must be refused (asserts)
-    for (size_t e : {0, 1, 2, 4, 7})
-        for (size_t size : {8, 16, 28})
-            if (th || (e + size + g_seed) % 3 == 0) printf("reset poolx %zu %zu\n", e, size);
-    puts("reset poolx 16 40\nreset poolx 24 100\nreset poolx 8 64\nreset poolx 16 48\nreset poolx 9 27\nreset poolx 8 0");
-    for (int i = 0; i < (th ? 40 : 6); i++) gen_ipool_reinit(r);
-    // a default-constructed igris::pool (no zone): every query must answer "empty"
-    puts("reset ipool0\ng\nsz\nca 0\nit\np null\ng\nca -1\nsz");
-    for (auto &k : sop_kinds)
-        for (int i = 0; i < (th ? 4 : 1); i++) gen_sop_case(r, k);
-    // object pools extended by further zones through freelist()
-    for (auto &k : sop_kinds)
-        for (int i = 0; i < (th ? 4 : 1); i++) gen_sop_case(r, k, true);
-    // ---- pool_head, igris::pool and static_object_pool on the same histories
-    for (size_t idx = 0; idx < sop_kinds.size(); idx++)
-        for (int i = 0; i < (th ? 6 : 1); i++) gen_tri_case(r, idx);
-    // ---- one pool fed from 1..4 zones engaged at arbitrary points of the history
-    for (int i = 0; i < (th ? 1200 : 160); i++) gen_mpool_case(r, i % 4, i % 5 == 4);
-    // ---- heap: exhaustive short histories over a 4-size alphabet
-    // (rounded to 8, 64, 128, 256 bytes; merged neighbours give 80, 136, … so
-    //  that exact fit, whole-chunk fit with an 8 byte rest and splits all occur)
-    const std::vector<size_t> al = {0, 64, 128, 200};
-    long part = th ? (long)(g_seed % 8) : 0, nparts = th ? 8 : 1;
-    // seed-derived partition in the thorough tier (8 derived seeds run in parallel)
-    if (th)
-    {
-        gen_heap_exhaustive(al, 6, false, part, nparts);
-        gen_heap_exhaustive(al, 5, true, part, nparts);
-    }
-    else
-    {
-        gen_heap_exhaustive(al, 5, false, 0, 1);
-        gen_heap_exhaustive(al, 4, true, 0, 1);
-        // a random 1/16 sample of the depth-6 malloc/free histories
-        gen_heap_exhaustive(al, 6, false, (long)r.below(16), 16);
-    }
-    for (int d = 1; d <= 3; d++) gen_heap_exhaustive(al, d, true, 0, 1);
-    // ---- heap: random histories, realloc chains
-    gen_heap_random(r, th ? 400 : 60, th ? 300 : 150);
-    gen_heap_chains(r, th ? 600 : 120);
-    gen_heap_targeted(r, th ? 3000 : 360);
-    gen_heap_huge(r, th ? 200 : 40);
-    gen_heap_brim(r, th ? 360 : 72);
-    gen_heap_neighbours(r, th ? 1600 : 240);
-    gen_heap_addrwrap(r, th ? 300 : 60);
-    gen_heap_maxalloc(r, th ? 400 : 60);
-    gen_heap_big(r, th ? 44 : 11);
-    // probes of the two recorded findings (excluded from the diff, expected to fail the oracle)
-    for (int i = 0; i < 3; i++)
-    {
-        puts("reset heap 0");
-        printf("m 0 %zu\n", (size_t)r.below(2000));
-        printf("@F:C10-heap-arena-unbounded-by-default mx 1 %zu\n", STATIC_ARENA + (size_t)r.below(1u << 20));
-        puts("m 2 64\nf 0\nf 2");
-        puts("reset heap 0");
-        puts("m 0 1");
-        puts("@F:C10-heap-align-max-align-t al 0");
-        puts("f 0");
-    }
-    // the release build (NDEBUG): histories with up to 400 live blocks
-    gen_heap_random(r, th ? 40 : 8, th ? 1500 : 600, true);
-}
+// the generators live in C10_gen.cpp (round 3b: compiled in parallel with this file)
+void c10_gen(hv::rng &r, const std::string &tier);
 
 int main(int argc, char **argv)
 {
     if (argc >= 3) g_seed = strtoull(argv[2], 0, 10);
-    return main_(argc, argv, gen, run_op);
+    return main_(argc, argv, c10_gen, run_op);
 }
